@@ -101,6 +101,64 @@ def timeout_plan(variant="plain"):
     return p
 
 
+def witness_each_output_required(out):
+    """Model-free: for targets with 2, 3 and 5 declared file outputs, without a bin_output and with one that sorts before / after
+    them, and for EACH declared output (and the bin output) in turn: a command that creates everything but that one must fail the
+    build, twice in a row (nothing was cached); the complete command succeeds, and after the outputs are wiped the next build
+    restores every one of them."""
+    import os, shutil, subprocess
+    from concurrent.futures import ThreadPoolExecutor
+    grog = vlib.build_grog()
+    base = os.path.join(vlib.scratch(), "eachoutput")
+    shutil.rmtree(base, ignore_errors=True)
+    cases = []
+    for n in (2, 3, 5):
+        outs = ["dist/%s.txt" % c for c in "cbdae"[:n]]          # declared unsorted
+        for binname in (None, "a_tool", "z_tool"):
+            allo = outs + ([binname] if binname else [])
+            for missing in [None] + allo:
+                cases.append((n, binname, outs, missing))
+
+    def one(k):
+        n, binname, outs, missing = cases[k]
+        d = os.path.join(base, "c%d" % k)
+        ws, root = os.path.join(d, "ws"), os.path.join(d, "root")
+        os.makedirs(ws); os.makedirs(root)
+        allo = outs + ([binname] if binname else [])
+        cmd = "mkdir -p dist; " + "; ".join(("echo %s > %s" % (o, o)) + ("; chmod +x %s" % o if o == binname else "") for o in allo if o != missing)
+        t = {"name": "tool", "command": cmd, "outputs": outs}
+        if binname:
+            t["bin_output"] = binname
+        json.dump({"targets": [t]}, open(os.path.join(ws, "BUILD.json"), "w"))
+        open(os.path.join(ws, "grog.toml"), "w").write("")
+        env = bl.grog_env(root, os.path.join(d, "trace"))
+        g = lambda: subprocess.run([grog, "build"], cwd=ws, env=env, stdout=subprocess.PIPE, stderr=subprocess.PIPE, text=True, timeout=120)
+        rcs = [g().returncode, g().returncode]
+        present = None
+        if missing is None:
+            shutil.rmtree(os.path.join(ws, "dist"), ignore_errors=True)
+            if binname and os.path.exists(os.path.join(ws, binname)):
+                os.unlink(os.path.join(ws, binname))
+            rcs.append(g().returncode)
+            present = [o for o in allo if os.path.isfile(os.path.join(ws, o))]
+        return rcs, present
+    with ThreadPoolExecutor(8) as ex:
+        results = list(ex.map(one, range(len(cases))))
+    for (n, binname, outs, missing), (rcs, present) in zip(cases, results):
+        desc = {"target": {"outputs": outs, "bin_output": binname}, "command": "creates every declared output" + (" except %s" % missing if missing else ""),
+                "exit_codes": rcs, "outputs_present_after_restore": present}
+        if missing is not None and 0 in rcs:
+            out.violation("a build succeeds (exit codes %s) although the command never creates the declared output %s (%d outputs%s)" % (
+                rcs, missing, n, ", bin_output %s" % binname if binname else ""), desc)
+            break
+        if missing is None and (rcs != [0, 0, 0] or sorted(present) != sorted(outs + ([binname] if binname else []))):
+            out.violation("control: a target that creates all of its %d outputs%s: exit codes %s, after wiping them the next build left %s" % (
+                n, " and bin_output %s" % binname if binname else "", rcs, present), desc, no_input=(rcs != [0, 0, 0]))
+            break
+    shutil.rmtree(base, ignore_errors=True)
+    return len(cases)
+
+
 def run(out, tier):
     n = 24 if tier == "quick" else 500
     feats = dict(hc.CLEAN); feats.update({"check": True, "fail": True})
@@ -169,6 +227,7 @@ def run(out, tier):
     # the timeout also binds a dependency that is re-made inside its dependant's task (load_outputs=minimal, blob lost)
     import c15
     evals += c15.witness_rerun_timeout(out)
+    evals += witness_each_output_required(out)
     # model: timeouts are not modelled; drop that history from the correspondence
     batch2 = [x for x in batch if x[0] != "timeout"]
     hc.finish(out, "C14", batch2,
